@@ -95,6 +95,9 @@ def _variant(rng, seq):
 
 def gen_case(rng, tier):
     maxn = 6 if tier == "quick" else 7
+    big = rng.random() < 0.06
+    if big:
+        maxn += 2  # generators are then only consumed in prefixes (the drain cap applies)
     ops = []
     live = []
     nid = 0
@@ -135,7 +138,8 @@ def gen_case(rng, tier):
             n = rng.randint(0, maxn + 2)
             bounds = [0, 1, 2, 3, 4, 9, 10, 33, 34, 153, 154, 873, 874, 5913, 5914, 46233, 46234]
             if rng.random() < 0.4:
-                ops.append({"op": "unrank", "r": rng.choice(bounds) + rng.choice([-1, 0, 0, 1]) if rng.random() < 0.6 else rng.randrange(50000)})
+                ops.append({"op": "unrank", "r": rng.choice(bounds) + rng.choice([-1, 0, 0, 1]) if rng.random() < 0.6
+                            else rng.randrange(50000 if not big else 5_000_000)})
                 ops[-1]["r"] = max(0, ops[-1]["r"])
             elif rng.random() < 0.5:
                 f = RO.factorial(n)
